@@ -37,7 +37,7 @@ class Emitter:
         return "".join(self.chunks)
 
 
-def _strip_attrs(text, prov):
+def _strip_attrs(text, prov, keep_derive=False):
     """class X: drop #[derive], #[serde], #[allow], doc attributes; return (text, derives)"""
     toks = code_tokens(text)
     out, derives = [], []
@@ -47,6 +47,9 @@ def _strip_attrs(text, prov):
         if toks[k][1] == "#" and k + 1 < len(toks) and toks[k + 1][1] == "[":
             e = match_close(toks, k + 1)
             head = toks[k + 2][1]
+            if head == "derive" and keep_derive:
+                k = e + 1
+                continue
             if head in ("derive", "serde", "allow", "doc", "inline", "cfg_attr"):
                 if head == "derive":
                     derives += [t[1] for t in toks[k + 4:e - 1] if t[0] == "id"]
@@ -429,7 +432,7 @@ class Unit:
         self.prov["items"].append(rec)
         raw = it.src[it.start:it.end]
         if it.kind in ("struct", "enum"):
-            text, derives = _strip_attrs(strip_comments(raw), prov)
+            text, derives = _strip_attrs(strip_comments(raw), prov, spec.get("keep_derive", False))
             text = apply_edits(text, spec.get("edit"), where, prov)
             base = a
             em.emit(text, per_line=lambda k: {"kind": "repo", "file": spec["file"], "line": base + k, "item": label})
